@@ -81,6 +81,12 @@ SWEEPS_Q = [
     {"kind": "R1", "axis": Z, "center": [0.0, 0.0, 0.0], "o": [0.0, 0.0, 0.0]},
     {"kind": "R1", "axis": X, "center": [0.0, 0.0, 0.0], "o": [0.0, 0.0, 0.5]},
     {"kind": "R1", "axis": Y, "center": [0.5, 0.0, 0.0], "o": [0.0, 0.25, 1.0]},
+    # B in general (rational) orientations: no zero direction component in the other primitive's frame
+    {"kind": "T1", "u": X, "o": [0.0, 0.25, 0.5], "R": PR.RGEN},
+    {"kind": "T1", "u": [0.0, 1.0, 1.0], "o": [0.5, 0.0, 0.0], "R": PR.RZ345},
+    # rotations that keep one direction component zero while the primitives miss each other
+    {"kind": "R1", "axis": X, "center": [0.0, 0.0, 0.0], "o": [0.0, 1.5, 1.0]},
+    {"kind": "R1", "axis": Y, "center": [0.0, 0.0, 0.0], "o": [-1.5, 0.0, -0.75]},
 ]
 SWEEPS_T = SWEEPS_Q + [
     {"kind": "T1", "u": Y, "o": [0.0, 0.0, 0.5]},
@@ -91,6 +97,8 @@ SWEEPS_T = SWEEPS_Q + [
     {"kind": "R1", "axis": Y, "center": [0.0, 0.0, 0.0], "o": [0.0, 0.0, 0.0]},
     {"kind": "T2", "u": X, "v": Y, "o": [0.0, 0.0, 0.5]},
     {"kind": "T2", "u": X, "v": Z, "o": [0.0, 0.25, 0.0]},
+    {"kind": "T1", "u": Z, "o": [0.25, 0.0, 0.0], "R": PR.RX51213},
+    {"kind": "T1", "u": [1.0, 1.0, 0.0], "o": [0.0, 0.0, 0.25], "R": PR.RGEN},
 ]
 
 
